@@ -282,6 +282,7 @@ SLeafEq(src, a, b) ==
 SMatEq(src, i, j) ==
     \/ i = j
     \/ /\ i # 0 /\ j # 0 /\ Len(src.mats[i].leaves) = Len(src.mats[j].leaves)
+       /\ src.mats[i].extorder = src.mats[j].extorder      \* Go values: the extension SLICES are equal
        /\ \A k \in DOMAIN src.mats[i].leaves : SLeafEq(src, src.mats[i].leaves[k], src.mats[j].leaves[k])
 
 SourcesExact(src) == \A m \in Ran(src.mats) : \A lf \in Ran(m.leaves) : lf.k = 0 => lf.x
@@ -312,8 +313,13 @@ SharedMaterialOK(o, src) ==
     LET lv == Live(src)  mn == MeshNodes(o) IN
     \A i, j \in DOMAIN lv : (i < j /\ lv[i].mat = lv[j].mat) => ThePrim(o, mn[i]).mat = ThePrim(o, mn[j]).mat
 
-\* value level: equal-by-value duplicates collapse (the tables have no two equal rows)
-MaterialOnce(o) == NoDup(o.mats)
+\* value level: equal-by-value duplicates collapse.  For materials "equal by
+\* value" is a statement about the Go values handed in (SMatEq), so it is
+\* phrased on the scene; texture / image / sampler rows are plain values.
+MaterialOnce(o, src) ==
+    LET lv == Live(src)  mn == MeshNodes(o) IN
+    \A i, j \in DOMAIN lv : (i < j /\ lv[i].mat # 0 /\ lv[j].mat # 0 /\ SMatEq(src, lv[i].mat, lv[j].mat)) =>
+        ThePrim(o, mn[i]).mat = ThePrim(o, mn[j]).mat
 TextureOnce(o) == NoDup(o.texs) /\ NoDup(o.images) /\ NoDup(o.samplers)
 
 \* nothing is stored that nobody references
